@@ -28,20 +28,21 @@ theorem dropAll_time (s : St) : (dropAll s).time = s.time + drain := by
 
 set_option linter.unusedSimpArgs false
 
-/-- what an info request / a retry loop can produce: the only exception is `struct.error` -/
-def GotOk (g : Got) : Prop := g = .answer ∨ g = .nothing ∨ g = .raise .structError
+/-- what an info request / a retry loop can produce: the only exceptions are `struct.error` (payload too
+    short) and `UnicodeDecodeError` (channel name not UTF-8) -/
+def GotOk (g : Got) : Prop := g = .answer ∨ g = .nothing ∨ g = .raise .structError ∨ g = .raise .unicodeError
 
 theorem request_time_le (s : St) (r : Req) (t : Nat) : (request s r t).2.time ≤ s.time + t := by
   unfold request St.next
   cases h : s.script with
-  | nil => cases hd : s.dflt <;> simp [h, hd, St.poison]
-  | cons x xs => cases x <;> simp [h, St.poison]
+  | nil => cases hd : s.dflt <;> cases r <;> simp [h, hd, St.poison]
+  | cons x xs => cases x <;> cases r <;> simp [h, St.poison]
 
 theorem request_got (s : St) (r : Req) (t : Nat) : GotOk (request s r t).1 := by
   unfold request St.next GotOk
   cases h : s.script with
-  | nil => cases hd : s.dflt <;> simp [h, hd]
-  | cons x xs => cases x <;> simp [h]
+  | nil => cases hd : s.dflt <;> cases r <;> simp [h, hd]
+  | cons x xs => cases x <;> cases r <;> simp [h]
 
 /-! ### time bounds -/
 
@@ -132,7 +133,8 @@ theorem connectLoop_time_le (dev : DevDesc) : ∀ (k : Nat) (s : St),
 
 /-- the outcomes of the connect loop -/
 def OutcomeOk (dev : DevDesc) (o : Outcome) : Prop :=
-  o = .connected dev.chmax dev.flags dev.rxpadding ∨ o = .raised .timeout ∨ o = .raised .structError
+  o = .connected dev.chmax dev.flags dev.rxpadding ∨ o = .raised .timeout ∨ o = .raised .structError ∨
+    o = .raised .unicodeError
 
 theorem connectLoop_outcome (dev : DevDesc) : ∀ (k : Nat) (s : St), OutcomeOk dev (connectLoop dev s k).1
   | 0, s => by simp [connectLoop, OutcomeOk]
@@ -936,6 +938,8 @@ theorem ackReq_noShort (x : Sess) (r : Sent) (t : Nat) (h : NoShort x.st) :
     | wrong => exact ⟨fun e he => by simp at he, n1, n2⟩
     | nack => exact ⟨fun e he => by simp at he, n1, n2⟩
     | noise => exact ⟨fun e he => by simp at he, n1, n2⟩
+    | wrongStream => exact ⟨fun e he => by simp at he, n1, n2⟩
+    | badName => exact ⟨fun e he => by simp at he, n1, n2⟩
     | swallowed r' => exact ⟨fun e he => by simp at he, n1, n2⟩
   · exact ⟨fun e he => by simp at he, h⟩
 
